@@ -137,6 +137,20 @@ impl CaoLangTable {
     }
 }
 
+#[cfg(feature = "verif-hooks")]
+impl CaoLangTable {
+    /// overwrite every stored value (keys and buckets stay as they are)
+    pub(crate) fn verif_poison(&mut self, with: Value) {
+        for (_, v) in self.map.iter_mut() {
+            *v = with;
+        }
+    }
+
+    pub fn verif_raw_slots(&self) -> Vec<Option<(u64, &Value, &Value)>> {
+        self.map.verif_raw_slots()
+    }
+}
+
 impl std::ops::Deref for CaoLangTable {
     type Target = CaoHashMap<Value, Value, AllocProxy>;
 
